@@ -45,6 +45,7 @@ Metas == {<<>>, <<D1>>, <<D1, D2>>, <<D3, D2>>, <<CM, D1>>, <<D1, CM, D2>>, <<D1
 \* ---- faults: each replaces one line of one change by a faulty line and names
 \* ---- the index of the offending token in it (0 = the end of the line)
 FaultKinds == {"badname",     \* @ na-me @        : the bad character
+               "badname8",    \* @ nAE-me @       : the same after a letter of two bytes ("AE" is rendered as a-umlaut; columns count bytes)
                "nothdr",      \* foo              : text where a header is expected
                "unktype",     \* var q strange    : the type name
                "dupname",     \* var x expression (again) : the second declaration of the name
@@ -53,6 +54,7 @@ FaultKinds == {"badname",     \* @ na-me @        : the bad character
                "novar"}       \* q expression     : the first token
 FaultLine(k) ==
   CASE k = "badname" -> <<Tok("@", 1, 0), Tok("na", 2, 1), Tok("-", 1, 0), Tok("me", 2, 0), Tok("@", 1, 1)>>
+    [] k = "badname8" -> <<Tok("@", 1, 0), Tok("nAE", 3, 1), Tok("-", 1, 0), Tok("me", 2, 0), Tok("@", 1, 1)>>
     [] k = "nothdr"  -> <<Tok("foo", 3, 0)>>
     [] k = "unktype" -> <<Tok("var", 3, 0), Tok("q", 1, 1), Tok("strange", 7, 1)>>
     [] k = "dupname" -> <<Tok("var", 3, 0), Tok("q", 1, 1), Tok(",", 1, 0), Tok("q", 1, 2), Tok("identifier", 10, 1)>>
@@ -60,9 +62,9 @@ FaultLine(k) ==
     [] k = "twodecl" -> <<Tok("var", 3, 0), Tok("q", 1, 1), Tok("expression", 10, 1), Tok("var", 3, 1), Tok("r", 1, 1), Tok("identifier", 10, 1)>>
     [] k = "novar"   -> <<Tok("q", 1, 1), Tok("expression", 10, 1)>>
 FaultTok(k) ==
-  CASE k = "badname" -> 3 [] k = "nothdr" -> 1 [] k = "unktype" -> 3 [] k = "dupname" -> 4
+  CASE k = "badname" -> 3 [] k = "badname8" -> 3 [] k = "nothdr" -> 1 [] k = "unktype" -> 3 [] k = "dupname" -> 4
     [] k = "notype" -> 0 [] k = "twodecl" -> 4 [] k = "novar" -> 1
-InHeader(k) == k \in {"badname", "nothdr"}
+InHeader(k) == k \in {"badname", "badname8", "nothdr"}
 
 \* ---- geometry of a line
 RECURSIVE WidthUpTo(_, _)
